@@ -72,6 +72,21 @@ func extraOp(out *bufio.Writer, inst **lmd.VerifInstance, op string, line opLine
 		emit(out, map[string]interface{}{"id": line.ID, "op": op, "out": string(res), "timeout": timedOut, "err": errStr})
 
 		return true
+	case "locks":
+		if *inst == nil {
+			emit(out, map[string]interface{}{"id": line.ID, "op": op, "error": "no dataset"})
+
+			return true
+		}
+		tables, err := (*inst).VerifAffectedTables(line.Text)
+		if err != nil {
+			emit(out, map[string]interface{}{"id": line.ID, "op": op, "bad": err.Error()})
+
+			return true
+		}
+		emit(out, map[string]interface{}{"id": line.ID, "op": op, "affected": tables})
+
+		return true
 	case "redistribute":
 		var spec struct {
 			Online   []bool   `json:"online"`
